@@ -797,12 +797,40 @@ func (it *Interp) resolveArg(key string, v cfg.Val, b bag) (any, *ErrM) {
 func (it *Interp) resolveArgs(prefix string, vs []cfg.Val, b bag) ([]any, *ErrM) {
 	out := make([]any, len(vs))
 	var first *ErrM
+	var others []*ErrM
 	for i, v := range vs {
 		x, e := it.resolveArg(fmt.Sprintf("%s:%d", prefix, i), v, b)
-		if e != nil && first == nil {
-			first = e
+		if e != nil {
+			if first == nil {
+				first = e
+			} else {
+				others = append(others, e)
+			}
 		}
 		out[i] = x
+	}
+	if first != nil && len(first.Not) > 0 && len(others) > 0 {
+		// the runtime reports the errors of all arguments together: a text that must not occur in the first one
+		// may legitimately be part of another one
+		cp := *first
+		cp.Not = nil
+		for _, n := range first.Not {
+			keep := true
+			for _, o := range others {
+				for _, c := range o.Contains {
+					if strings.Contains(c, n) {
+						keep = false
+					}
+				}
+				if len(o.Contains) == 0 {
+					keep = false // text of that error is not modelled
+				}
+			}
+			if keep {
+				cp.Not = append(cp.Not, n)
+			}
+		}
+		first = &cp
 	}
 	return out, first
 }
